@@ -244,7 +244,7 @@ fn extension_additions(input: Input<'_>) -> ParserResult<'_, ()> {
                             preceded(
                                 range_seperator,
                                 preceded(
-                                    opt(char(LESS_THAN)),
+                                    opt(skip_ws_and_comments(char(LESS_THAN))),
                                     skip_ws_and_comments(alt((
                                         value(None, tag(MAX)),
                                         map(asn1_value, Some),
@@ -310,7 +310,7 @@ fn value_range(input: Input<'_>) -> ParserResult<'_, SubtypeElements> {
                 preceded(
                     range_seperator,
                     preceded(
-                        opt(char(LESS_THAN)),
+                        opt(skip_ws_and_comments(char(LESS_THAN))),
                         skip_ws_and_comments(alt((value(None, tag(MAX)), map(asn1_value, Some)))),
                     ),
                 ),
